@@ -28,7 +28,7 @@ SPEC['C03'] = ('Bottom-up build leaves every known task up to date', ['Local2', 
   ('C03_mixed_refuted', 'Findings', 'C03_mixed_refuted',
    'recorded finding (O4): with a top-down build between the change and its report, the bottom-up build executes nothing and a task stays stale'),
 ], 'PARTIAL + recorded finding. The global statement is decided by correspondence + the probe-session oracle.')
-SPEC['C04'] = ('Bottom-up build runs only affected tasks, once, in dependency order', ['Queue', 'Local', 'BuJust', 'BuOnce', 'BuOnce2', 'ExecInv', 'Cert', 'Stable', 'NoBug4All', 'NoAbort', 'NoAbortAll', 'HasOut', 'OnceAll', 'C01Witness', 'OnceWitness'], [
+SPEC['C04'] = ('Bottom-up build runs only affected tasks, once, in dependency order', ['Queue', 'Local', 'BuJust', 'BuOnce', 'BuOnce2', 'ExecInv', 'Cert', 'Stable', 'NoBug4All', 'NoAbort', 'NoAbortAll', 'HasOut', 'OnceAll', 'C01Witness', 'OnceWitness', 'MixedOnce'], [
   ('C04_witness_does_real_work', 'OnceWitness', 'C04_witness_does_real_work', 'non-vacuity of C04_at_most_once_static_class: for the witness program of C01 (a generator and its consumer, static class, exact checkers), after a history that built both and then changed the generator input, the bottom-up build over that input completes and executes the generator and then the consumer (newest first: [0; 1]), each once'),
   ('C04_second_execution_only_after_rescheduling', 'BuOnce2', 'bottom_up_second_execution_rescheduled', 'at-most-once, second step (BuOnce.v + NoReentry.v), for ALL programs and checkers: in the bottom-up build that opens a session after ANY history (completed or aborted), between two execution starts of the same task the task was scheduled again -- the alternative of C04_at_most_once_partial (the earlier execution still open) is excluded by C07 for all sessions'),
   ('C04_at_most_once_partial', 'BuOnce', 'bottom_up_no_duplicate_execution', 'the at-most-once clause, PARTIAL but global: for ALL programs, checkers, fuel, worlds and change sets, in ANY bottom-up build (completed or aborted) a second execution of a task t can only start if, since the previous start of t, t was scheduled again or that previous execution has not ended -- the queue bookkeeping and the "new task" shortcut never duplicate an execution (what failed before the repair of O14). Missing for the full clause: a task is not scheduled again after it ran (the hidden-dependency argument inside the class), and an executing task is not re-entered (the cycle check); both are decided by the oracle executed-twice on every run'),
@@ -296,6 +296,19 @@ RAW['C03'] = [
 ]
 
 RAW['C04'] = [
+  ('C04_at_most_once_requires_then_bottom_up',
+   'at most once for sessions that MIX the two kinds of build (static class, reflexive checkers, after ANY history): a session of top-down requires followed by a bottom-up build executes no task twice in the WHOLE session - the bottom-up build executes no task twice and none that a require of the same session already executed. MixedOnce.v: the top-down part leaves a consistent set closed under dependencies whose recorded dependencies are all accepted (Valid.v), so the initial scheduling queues none of them and the invariant of OnceAll.v holds when the build starts',
+   TOTAL_BINDERS + """  (forall c env r v, rc_check (RC c) env r v (sf c r v) = Consistent) ->
+  (forall c o, oc_check (OC c) o (oc_stamp (OC c) o) = true) ->
+  forall fuel h tdops ch, roots_below ord fuel tdops ->
+  let w := new_session (snd (run_history RC OC P always fuel init_world h)) in
+  let v := snd (run_session RC OC P always fuel w tdops) in
+  match session_bottom_up RC OC P fuel v ch with
+  | Done _ w' => NoDup (execs (trace w'))
+  | Abort _ _ => False
+  | OutOfFuel => True
+  end""",
+   'intros gen wck ord RC OC P sf always HS HWF HWO HR HRO fuel h tdops ch. exact (requires_then_bottom_up_at_most_once gen wck ord RC OC P sf always HS HWF HWO HR HRO fuel h tdops ch).'),
   ('C04_at_most_once_static_class',
    'the at-most-once clause, FULL, in the static program class (WFP + WFO, as in C20), for the bottom-up build that opens a session after ANY history (top-down, bottom-up and mixed sessions, external changes): the build does not abort and NO task is executed twice (execs = the tasks of the execution-start events of the build, newest first). OnceAll.v: invariant of the build -- nothing reachable from a task the session already holds consistent is queued or executing; an executing task has recorded requires only to consistent tasks and reads only of resources whose generator is consistent; a task is marked consistent only when everything reachable from it is settled; a task is scheduled only through a dependency on a task not reachable from the consistent set; every started task is consistent or still executing -- carried through every bottom-up interpreter on top of the NoReentry / NoBugAll / CertAll / NoAbortAll bundles and HasOut.v',
    TOTAL_BINDERS + """  forall fuel h ch,
